@@ -245,6 +245,22 @@ fn gen_half(rng: &mut Rng, big_ok: bool, faults_ok: bool) -> HalfPlan {
     h
 }
 
+/// Application think-time must stay far below the 30 s idle timeout: a stream on which no
+/// packet flows for 30 s (e.g. a flow-blocked sender waiting for a reader that sleeps between
+/// 1-byte reads) times out by design — there is no keep-alive — and that is not what C20 is about.
+fn cap_think_time(own: &mut HalfPlan, peer_write_len: u64) {
+    const BUDGET_US: u64 = 3_000_000;
+    if own.pause_us == 0 || own.pause_every == 0 {
+        return;
+    }
+    let read_ops = peer_write_len / own.max_read.max(1) as u64 + 1;
+    let write_ops = own.write_len / own.write_chunk.max(1) as u64 + 1;
+    let pauses = (read_ops.max(write_ops)) / own.pause_every as u64 + 1;
+    if pauses * own.pause_us > BUDGET_US {
+        own.pause_us = BUDGET_US / pauses;
+    }
+}
+
 const SIM_CLASSES: &[&str] = &[
     "clean",
     "random_loss",
@@ -258,7 +274,7 @@ const SIM_CLASSES: &[&str] = &[
     "vanish_drop_state",
 ];
 
-pub fn gen_sim_scenario(seed: u64, case: u64, only: Option<&str>) -> Scenario {
+pub fn gen_sim_scenario(seed: u64, case: u64, only: Option<&str>, heavy_reorder: bool) -> Scenario {
     let mut rng = Rng::new(mix(seed, 0x2000_0000 + case));
     let class = match only {
         Some(c) => c.to_string(),
@@ -310,12 +326,14 @@ pub fn gen_sim_scenario(seed: u64, case: u64, only: Option<&str>) -> Scenario {
         }
         "dup_reorder" => {
             net.dup_ppm = *rng.pick(&[10_000u32, 100_000, 300_000, 1_000_000]);
-            net.jitter_us = *rng.pick(&[0u64, 100, 500, 2000, 10_000]);
+            // jitter beyond the RTT (1 ms) reorders by many packets; see README "F4" for why
+            // that is opt-in (--heavy-reorder 1)
+            net.jitter_us = if heavy_reorder { *rng.pick(&[500u64, 2000, 10_000]) } else { *rng.pick(&[0u64, 100, 300, 500]) };
         }
         "loss_dup_reorder" => {
             net.loss_ppm = *rng.pick(&[10_000u32, 50_000, 100_000, 200_000]);
             net.dup_ppm = *rng.pick(&[0u32, 50_000, 200_000]);
-            net.jitter_us = *rng.pick(&[100u64, 1000, 5000]);
+            net.jitter_us = if heavy_reorder { *rng.pick(&[1000u64, 5000]) } else { *rng.pick(&[100u64, 300, 500]) };
             big_ok = false;
         }
         "early_drop" => {
@@ -352,6 +370,12 @@ pub fn gen_sim_scenario(seed: u64, case: u64, only: Option<&str>) -> Scenario {
                 server.write_after_read = false;
             }
         }
+        if net.jitter_us >= 1000 || net.dup_ppm >= 300_000 {
+            // heavy reordering makes every ACK carry hundreds of ranges (~1.1 KB control packets
+            // per data packet): correct but very slow to simulate, so keep these flows small
+            client.write_len = client.write_len.min(120_000);
+            server.write_len = server.write_len.min(120_000);
+        }
         if vanish != VanishKind::None {
             // make sure something is still in flight when the peer vanishes
             client.write_len = client.write_len.max(rng.range(200_000, 3_000_000));
@@ -363,6 +387,9 @@ pub fn gen_sim_scenario(seed: u64, case: u64, only: Option<&str>) -> Scenario {
             client.pause_us = 0;
             server.pause_us = 0;
         }
+        let (cw, sw) = (client.write_len, server.write_len);
+        cap_think_time(&mut client, sw);
+        cap_think_time(&mut server, cw);
         streams.push(StreamSpec { start_us: if i == 0 { 0 } else { rng.below(5000) }, client, server });
     }
     if vanish != VanishKind::None {
@@ -403,8 +430,14 @@ pub fn gen_tcp_scenario(seed: u64, case: u64) -> Scenario {
             client.write_len = client.write_len.min(20_000);
             server.write_len = server.write_len.min(20_000);
         }
-        client.pause_us = client.pause_us.min(300);
-        server.pause_us = server.pause_us.min(300);
+        // real time: tokio timers have ~1 ms granularity and every read is a syscall
+        client.pause_us = if client.pause_us > 0 { 1000 } else { 0 };
+        server.pause_us = if server.pause_us > 0 { 1000 } else { 0 };
+        let max_ops = 8_000u64;
+        server.write_len = server.write_len.min(client.max_read as u64 * max_ops);
+        client.write_len = client.write_len.min(server.max_read as u64 * max_ops);
+        client.pause_every = client.pause_every.max(4);
+        server.pause_every = server.pause_every.max(4);
         server.write_after_read = rng.chance(1, 2);
         if class == "tcp_early_drop" && rng.chance(1, 2) && server.write_len > 0 {
             // Time is real here: a writer whose peer stopped reading blocks on TCP flow control
@@ -413,6 +446,9 @@ pub fn gen_tcp_scenario(seed: u64, case: u64) -> Scenario {
             let lo = server.write_len.saturating_sub(16_000);
             client.read_stop_at = Some(rng.range(lo, server.write_len - 1));
         }
+        let (cw, sw) = (client.write_len, server.write_len);
+        cap_think_time(&mut client, sw);
+        cap_think_time(&mut server, cw);
         streams.push(StreamSpec { start_us: 0, client, server });
     }
     Scenario {
@@ -472,13 +508,26 @@ impl NetCtl {
             // cooperative abort of a simulation that burns wall-clock time (caught by the
             // scenario runner and reported as inconclusive, never as a violation)
             panic!(
-                "{WALL_BUDGET_TAG}: wall budget of {} s exhausted at virtual {} ms after {} packets",
+                "{WALL_BUDGET_TAG}: wall budget of {} s exhausted at virtual {} ms after {} packets ({} bytes on the wire, {} duplicated, {} dropped; last packet: {})",
                 self.wall_budget.as_secs(),
                 now_us() / 1000,
-                self.stats.sent
+                self.stats.sent,
+                self.stats.bytes,
+                self.stats.duplicated,
+                self.stats.dropped_random + self.stats.dropped_burst + self.stats.dropped_kth,
+                describe_packet(p)
             );
         }
         self.stats.bytes += p.transport.payload().len() as u64;
+        let trace = TRACE_PACKETS.load(std::sync::atomic::Ordering::Relaxed);
+        let cmd = self.decide(p, idx);
+        if trace {
+            eprintln!("[pkt] t={}us #{idx} {} {}", now_us(), describe_packet(p), if cmd.is_drop() { "DROPPED" } else { "" });
+        }
+        cmd
+    }
+
+    fn decide(&mut self, p: &Packet, idx: u64) -> Command {
         if self.blackhole || (self.server_mute && Some(p.source().ip()) == self.server_ip) {
             self.stats.dropped_vanish += 1;
             return Command::Drop;
@@ -525,6 +574,29 @@ impl NetCtl {
 }
 
 type SharedNet = Arc<Mutex<NetCtl>>;
+
+/// one-line description of a dc packet on the simulated wire (replay / --trace only)
+fn describe_packet(p: &Packet) -> String {
+    use s2n_quic_dc::packet;
+    let mut bytes = p.transport.payload().to_vec();
+    let n = bytes.len();
+    let d = s2n_codec::DecoderBufferMut::new(&mut bytes);
+    let what = match d.decode_parameterized::<packet::Packet>(16) {
+        Ok((packet::Packet::Stream(s), _)) => format!(
+            "stream q={} key={} pn={} {:?}{} off={} len={} fin={:?} ctl={}",
+            s.stream_id().queue_id(), s.credentials().key_id, s.packet_number(), s.tag().packet_space(),
+            if s.is_retransmission() { "(retx)" } else { "" }, s.stream_offset(), s.payload().len(), s.final_offset(), s.control_data().len()
+        ),
+        Ok((packet::Packet::Control(c), _)) => format!("control q={:?} key={} pn={} ctl={}", c.stream_id().map(|i| *i.queue_id()), c.credentials().key_id, c.packet_number(), c.control_data().len()),
+        Ok((packet::Packet::Datagram(_), _)) => "datagram".into(),
+        Ok((packet::Packet::StaleKey(_), _)) => "stale_key".into(),
+        Ok((packet::Packet::ReplayDetected(_), _)) => "replay_detected".into(),
+        Ok((packet::Packet::UnknownPathSecret(_), _)) => "unknown_path_secret".into(),
+        Err(_) => "undecodable".into(),
+    };
+    format!("{} -> {} {n}B {what}", p.source(), p.destination())
+}
+
 
 /// queue allocator: every packet gets its own seeded latency (=> reordering) and may be
 /// dispatched twice (=> duplication). Drops are decided by the registered bach monitor.
@@ -623,6 +695,8 @@ pub struct Oracle {
     pub late_results: Vec<(u64, bool)>,
     /// server-side stream handlers currently running
     pub server_active: i64,
+    /// accepted streams whose first 8 bytes (stream index) could not be read
+    pub server_preamble_failures: u64,
 }
 
 type SharedOracle = Arc<Mutex<Oracle>>;
@@ -902,11 +976,14 @@ fn judge(sc: &Scenario, o: &Oracle, hanging: Vec<String>, vanish_t0_us: Option<u
             }
             let bad = d.writer_failed.is_some() || d.reader_end.as_deref().map_or(true, |e| e.starts_with("error"));
             if bad {
-                let loss = loss_bucket(&sc.net);
+                // one signature per transport and per "were packets lost at all": the class and
+                // the loss rate only say how the stall was provoked (they are in `what`/replay)
+                let lossy = net.dropped_random + net.dropped_burst + net.dropped_kth > 0;
                 findings.push(Finding {
-                    sig: format!("c20:{t}:unexpected_error:{}:{loss}", sc.class),
+                    sig: format!("c20:{t}:unexpected_error:{}", if lossy { "lossy_network" } else { "lossless_network" }),
                     what: format!(
-                        "stream {si} direction {}: both endpoints alive and no early drop, but writer result {:?} / reader result {:?} after {}/{} bytes (loss {} ppm)",
+                        "class {} ({}): stream {si} direction {}: both endpoints alive and no early drop, but writer result {:?} / reader result {:?} after {}/{} bytes (loss {} ppm)",
+                        sc.class, loss_bucket(&sc.net),
                         if i % 2 == 0 { "client->server" } else { "server->client" }, d.writer_failed, d.reader_end, d.read, d.intended, sc.net.loss_ppm
                     ),
                 });
@@ -914,6 +991,12 @@ fn judge(sc: &Scenario, o: &Oracle, hanging: Vec<String>, vanish_t0_us: Option<u
         }
     }
     let _ = early;
+    if !vanished && !timed_out && o.server_preamble_failures > 0 && !sc.streams.iter().any(|s| s.client.read_stop_at.is_some() || s.client.write_stop_at.is_some()) {
+        findings.push(Finding {
+            sig: format!("c20:{t}:unexpected_error:{}", if net.dropped_random + net.dropped_burst + net.dropped_kth > 0 { "lossy_network" } else { "lossless_network" }),
+            what: format!("{} accepted stream(s) failed on the server before the first 8 bytes could be read although both endpoints are alive: {:?}", o.server_preamble_failures, o.errors.iter().filter(|e| e.0.starts_with("server:preamble")).collect::<Vec<_>>()),
+        });
+    }
     for (t_us, e) in &o.connect_errors {
         if sc.vanish == VanishKind::None {
             findings.push(Finding { sig: format!("c20:{t}:connect_failed:{}", sc.class), what: format!("connect failed at {} ms: {e}", t_us / 1000) });
@@ -1309,7 +1392,10 @@ async fn serve_inner(mut stream: Stream, sc: Scenario, oracle: SharedOracle) {
     let g = OpGuard::new(&oracle, "server:preamble".into());
     let r = stream.read_exact(&mut pre).await;
     drop(g);
-    if r.is_err() {
+    if let Err(e) = r {
+        let mut gl = oracle.lock().unwrap();
+        gl.errors.push(("server:preamble".into(), now_us(), err_class(&e)));
+        gl.server_preamble_failures += 1;
         return;
     }
     let idx = u64::from_be_bytes(pre);
@@ -1414,6 +1500,8 @@ pub fn run_tcp(sc: &Scenario) -> Outcome {
     let no_op_pending = timed_out && hanging.is_empty();
     let mut out = judge(sc, &o, hanging, None, end_us, NetStats::default());
     if no_op_pending {
+        // the scenario was merely slow (application think time, machine load): undecided
+        out.findings.clear();
         out.harness_problem = Some("tcp scenario exceeded its real-time budget although no stream operation was pending".into());
     }
     out
@@ -1479,6 +1567,7 @@ fn account(sum: &mut Summary, sc: &Scenario, out: &Outcome, seed: u64, case: u64
 }
 
 static WALL_BUDGET_MS: std::sync::atomic::AtomicU64 = std::sync::atomic::AtomicU64::new(120_000);
+static TRACE_PACKETS: std::sync::atomic::AtomicBool = std::sync::atomic::AtomicBool::new(false);
 
 /// run one scenario on its own thread (fresh thread-locals for bach and for the crate's
 /// simulated-server registry, and a panic cannot poison the next scenario)
@@ -1582,14 +1671,16 @@ pub fn run(args: &BTreeMap<String, String>, sum: &mut Summary) {
     let start = vq_util::arg_u64(args, "start", 0);
     let only = args.get("class").cloned();
     let verbose = args.contains_key("verbose");
+    let heavy_reorder = vq_util::arg_u64(args, "heavy-reorder", 0) == 1;
     WALL_BUDGET_MS.store(vq_util::arg_u64(args, "scenario-wall-ms", 120_000), std::sync::atomic::Ordering::Relaxed);
+    TRACE_PACKETS.store(args.contains_key("trace"), std::sync::atomic::Ordering::Relaxed);
     let kth_flows = vq_util::arg_u64(args, "kth-flows", if only.is_none() { (iters / 25).max(1) } else { 0 });
     if (transport == "udp" || transport == "both") && kth_flows > 0 {
         kth_enumeration(seed, start, kth_flows, verbose, sum);
     }
     if transport == "udp" || transport == "both" {
         for case in start..start + iters {
-            let sc = gen_sim_scenario(seed, case, only.as_deref());
+            let sc = gen_sim_scenario(seed, case, only.as_deref(), heavy_reorder);
             let t0 = std::time::Instant::now();
             match run_one(&sc) {
                 Ok(out) => {
@@ -1618,6 +1709,10 @@ pub fn run(args: &BTreeMap<String, String>, sum: &mut Summary) {
 
 pub fn replay(r: &Value, sum: &mut Summary) {
     let sc = scenario_from(&r["scenario"]);
+    TRACE_PACKETS.store(std::env::args().any(|a| a == "--trace"), std::sync::atomic::Ordering::Relaxed);
+    if let Some(ms) = std::env::args().skip_while(|a| a != "--scenario-wall-ms").nth(1).and_then(|v| v.parse::<u64>().ok()) {
+        WALL_BUDGET_MS.store(ms, std::sync::atomic::Ordering::Relaxed);
+    }
     eprintln!("[c20 replay] {}", scenario_json(&sc));
     match run_one(&sc) {
         Ok(out) => {
